@@ -11,6 +11,7 @@ import (
 	"errors"
 	"fmt"
 	"reflect"
+	"runtime"
 	"sync"
 	"time"
 
@@ -103,6 +104,9 @@ type Cfg struct {
 	StoreFirst   bool  `json:"store_first,omitempty"` // WithStore before the hook options (else after)
 	FailAppends  []int `json:"fail_appends,omitempty"`
 	ErrHandler   bool  `json:"err_handler,omitempty"`
+	PHNil        bool  `json:"ph_nil,omitempty"`       // the panic handler is explicitly nil (WithPanicHandler(nil) / SetPanicHandler(nil) after a real one)
+	PHRepublish  bool  `json:"ph_republish,omitempty"` // the panic handler re-publishes an event of the panicking handler's type (a retry)
+	HookPublish  int   `json:"hook_publish,omitempty"` // 1..4: that hook (before, beforectx, after, afterctx) publishes one nested event per top-level publish
 }
 
 // Program is a configuration plus top-level operations.
@@ -179,29 +183,33 @@ type Engine struct {
 	depth  int
 	failed bool
 
-	mu         sync.Mutex
-	clock      uint64
-	Trace      []TEv
-	tokens     uint64
-	asyncGot   map[[2]uint64]int // (reg, eid) -> count
-	asyncWant  map[[2]uint64][2]int
-	asyncPanic map[[2]uint64]int
-	pubs       map[uint64]*pubInfo
-	captured   []capturedCtx
-	cancels    []context.CancelFunc
-	persisted  []persistedEv
-	replay     *replayFrame
-	ObsImpl    ebu.Observability // overrides the recording Observability when Cfg.Obs is set
-	execLog    map[string]int
-	appendN    int
-	Store      *ebu.MemoryStore
+	mu            sync.Mutex
+	clock         uint64
+	Trace         []TEv
+	tokens        uint64
+	asyncGot      map[[2]uint64]int // (reg, eid) -> count
+	asyncWant     map[[2]uint64][2]int
+	asyncPanic    map[[2]uint64]int
+	pubs          map[uint64]*pubInfo
+	captured      []capturedCtx
+	cancels       []context.CancelFunc
+	persisted     []persistedEv
+	inHookPub     bool
+	inPHPub       bool
+	syncPanicType int
+	mainGoid      int64
+	replay        *replayFrame
+	ObsImpl       ebu.Observability // overrides the recording Observability when Cfg.Obs is set
+	execLog       map[string]int
+	appendN       int
+	Store         *ebu.MemoryStore
 
 	Viol func(sig, desc string)
 
 	// statistics for evidence
 	Stats struct {
 		SyncInv, AsyncInv, Reentrant, ReentrantMut, Queries, Pubs, NestedPubs, Panics, Cancels int
-		ReplaySubs, ReplayDeliveries                                                           int
+		ReplaySubs, ReplayDeliveries, HookPubs, PHPubs                                         int
 		ShardShare                                                                             bool
 		MaxDepth                                                                               int
 		Zombies                                                                                int
@@ -308,7 +316,7 @@ func New(drivers []evt.Driver, p *Program, viol func(sig, desc string)) *Engine 
 
 // NewWith is New with an Observability implementation replacing the recording one.
 func NewWith(drivers []evt.Driver, p *Program, viol func(sig, desc string), obsFactory func(*Engine) ebu.Observability) *Engine {
-	e := &Engine{Drivers: drivers, P: p, Viol: viol, MaxDepth: 3, execLog: map[string]int{},
+	e := &Engine{Drivers: drivers, P: p, Viol: viol, MaxDepth: 3, execLog: map[string]int{}, syncPanicType: -1,
 		model: map[int][]*mreg{}, asyncGot: map[[2]uint64]int{}, asyncWant: map[[2]uint64][2]int{},
 		asyncPanic: map[[2]uint64]int{}, pubs: map[uint64]*pubInfo{}}
 	if obsFactory != nil {
@@ -358,9 +366,16 @@ func NewWith(drivers []evt.Driver, p *Program, viol func(sig, desc string), obsF
 	if !c.StoreFirst {
 		storeOpt()
 	}
+	if c.PHNil && !c.PHBySetter {
+		opts = append(opts, ebu.WithPanicHandler(nil))
+	}
 	e.Bus = ebu.New(opts...)
 	if c.PanicHandler && c.PHBySetter {
 		e.Bus.SetPanicHandler(e.panicHandler)
+	}
+	if c.PHNil && c.PHBySetter {
+		e.Bus.SetPanicHandler(func(any, reflect.Type, any) {})
+		e.Bus.SetPanicHandler(nil)
 	}
 	if c.HooksSetter {
 		if c.BeforeLegacy {
@@ -393,6 +408,12 @@ func (e *Engine) idOfAny(ev any) (uint64, bool) {
 }
 
 func (e *Engine) hook(kind string, ctx context.Context, t reflect.Type, ev any) {
+	defer e.hookPublish(kind)
+	if (kind == "hook.after" || kind == "hook.afterctx") && len(e.frames) > 0 && !e.failed {
+		// the bus has finished dispatching this publish: bring the model's dispatch loop to the end
+		// before anything the hook does (a nested publish) can change what it would see
+		e.advance(e.frames[len(e.frames)-1], nil)
+	}
 	id, ok := e.idOfAny(ev)
 	info := t.String()
 	tev := TEv{K: kind, EID: id, Info: info}
@@ -410,10 +431,51 @@ func (e *Engine) hook(kind string, ctx context.Context, t reflect.Type, ev any) 
 	e.stamp(tev)
 }
 
+// goid returns the current goroutine's id (only used on panic paths, to tell the engine's own
+// goroutine from the goroutines of asynchronous handlers).
+func goid() int64 {
+	var buf [64]byte
+	n := runtime.Stack(buf[:], false)
+	var id int64
+	fmt.Sscanf(string(buf[:n]), "goroutine %d ", &id)
+	return id
+}
+
+// hookPublish: a hook that itself publishes (once per top-level publish; nested publishes run their
+// own hooks, which must not recurse further).
+func (e *Engine) hookPublish(kind string) {
+	want := map[int]string{1: "hook.before", 2: "hook.beforectx", 3: "hook.after", 4: "hook.afterctx"}[e.P.Cfg.HookPublish]
+	if want != kind || e.inHookPub || len(e.frames) != 1 {
+		return
+	}
+	e.inHookPub = true
+	e.Stats.HookPubs++
+	e.exec(&Op{K: Pub, T: len(e.P.Types) - 1, UseCtx: e.Stats.HookPubs%2 == 0}, nil)
+	e.inHookPub = false
+	// the nested publish may have changed the registry (once handlers retired, scripts); whether a
+	// change made inside a before-hook of this very publish is "before the publish began" is not
+	// settled by the statement: the model follows the bus and snapshots after the before-hooks
+	if f := e.frames[len(e.frames)-1]; (kind == "hook.before" || kind == "hook.beforectx") && f.pos == 0 {
+		f.snap = append(f.snap[:0:0], e.model[f.typ]...)
+	}
+}
+
 func (e *Engine) panicHandler(ev any, ht reflect.Type, val any) {
 	id, _ := e.idOfAny(ev)
 	info := ht.String() + "|" + describePanic(val)
 	e.stamp(TEv{K: "panichandler", EID: id, Info: info})
+	// a retrying panic handler: re-publish on the same bus (only for synchronous handlers, whose panic
+	// handler runs on the engine's goroutine; once per program step to stay finite)
+	if e.P.Cfg.PHRepublish && goid() == e.mainGoid && e.syncPanicType >= 0 && !e.inPHPub && e.depth < e.MaxDepth && !e.failed {
+		t := e.syncPanicType
+		e.syncPanicType = -1
+		e.inPHPub = true
+		e.depth++
+		e.Stats.PHPubs++
+		e.exec(&Op{K: Pub, T: t}, nil)
+		e.depth--
+		e.inPHPub = false
+	}
 }
 
 func describePanic(v any) string {
@@ -471,6 +533,7 @@ func doPanic(kind, reg int, eid uint64) {
 // Run executes the whole program, waits for asynchronous work and runs the end-of-program checks
 // of the registry monitor.
 func (e *Engine) Run() {
+	e.mainGoid = goid()
 	for i := range e.P.Ops {
 		if e.failed {
 			break
@@ -798,6 +861,7 @@ func (e *Engine) invoke(r *mreg, ctx context.Context, id uint64, payloadOK bool)
 			pi.panicsSync++
 		}
 		e.mu.Unlock()
+		e.syncPanicType = r.typ
 		doPanic(r.spec.PanicKind, r.id, id)
 	}
 }
@@ -934,10 +998,14 @@ func (s *failStore) Append(ctx context.Context, ev *ebu.Event) (ebu.Offset, erro
 			fail = true
 		}
 	}
-	tev := TEv{K: "store.append", EID: eid, Err: fail, Tok: tokOf(ctx, "persist"), Par: tokOf(ctx, "pub"), Info: ev.Type}
+	ctxErr := ctx.Err() // a store that honours its context: the append of a publish whose context is over fails with that error
+	tev := TEv{K: "store.append", EID: eid, Err: fail || ctxErr != nil, Tok: tokOf(ctx, "persist"), Par: tokOf(ctx, "pub"), Info: ev.Type}
 	e.stamp(tev)
 	if fail {
 		return "", fmt.Errorf("verif: injected append failure #%d", n)
+	}
+	if ctxErr != nil {
+		return "", ctxErr
 	}
 	off, err := s.inner.Append(ctx, ev)
 	if err == nil && len(e.frames) > 0 {
